@@ -281,6 +281,11 @@ def parse_const(ctx, txt, want_ty=None):
         return StrConst(m.group(1))
     # named constant
     key = t.split("::")[-1]
+    if t not in ctx.consts and "::" in t:
+        # a path printed with more (or fewer) leading segments than at its definition: the longest definition path that is a suffix of it
+        suf = [k for k in ctx.consts if "::" in k and (t.endswith("::" + k) or k.endswith("::" + t))]
+        if suf:
+            t = max(suf, key=len)
     if t in ctx.consts or key in ctx.consts:
         v, ty = ctx.consts.get(t) or ctx.consts.get(key)
         k = scalar_kind(ty)
@@ -1018,8 +1023,9 @@ class Executor:
         return ret_bb
 
     # ---------------------------------------------------------------- Option / Result combinators
-    def closure_body(self, f):
-        """body of a closure value (an aggregate whose type is `{closure@file:line:col: line:col}`), or None"""
+    def closure_body(self, f, near=None):
+        """body of a closure value (an aggregate whose type is `{closure@file:line:col: line:col}`), or None. Closures written by a macro share their
+        location: `near` (the name of the body that made the closure) then picks the one nested in it."""
         ty = None
         if isinstance(f, Node):
             ty = f.ty
@@ -1040,9 +1046,14 @@ class Executor:
                 if b.params:
                     mm = re.search(r"\{closure@[^}]*\}", b.params[0][1] or "")
                     if mm and "{closure#" in b.name.rsplit("::", 1)[-1]:
-                        idx.setdefault(mm.group(0), b)
+                        idx.setdefault(mm.group(0), []).append(b)
             self.ctx._closure_idx = idx
-        return idx.get(key)
+        cands = idx.get(key) or []
+        if near and len(cands) > 1:
+            nested = [b for b in cands if b.name.startswith(near + "::")]
+            if nested:
+                return nested[0]
+        return cands[0] if cands else None
 
     def mk_variant(self, ty, vidx, vname, payload=None):
         n = Node(self.ctx.fresh_name(ty.lower()), ty)
